@@ -10,7 +10,7 @@
     if consumed, ends at or beyond the position reached through L0. *)
 From Coq Require Import List NArith Bool.
 From LS Require Import Base.PMap Vfs.Index Vfs.Poll Vfs.Restore Vfs.Domain Vfs.World
-                       Vfs.OpenProofs Vfs.PollProofs.
+                       Vfs.OpenProofs Vfs.PollProofs Vfs.TimeTravel Vfs.TimeTravelProofs.
 Import ListNotations.
 Open Scope N_scope.
 
@@ -101,3 +101,22 @@ Theorem vfs_poll_pending_equiv : forall v l0 l1 vs vu,
     v_pos vs' = v_pos vu /\ v_max1 vs' = v_max1 vu /\ v_commit vs' = v_commit vu /\ v_lock vs' = v_lock vu.
 Proof. exact poll_locked_then_unlock. Qed.
 Print Assumptions vfs_poll_pending_equiv.
+
+(** last clause of C18: a time-travel view equals the timestamp restore for that
+    time, from any state (pending index staged under a read lock included) and
+    under every later interleaving of Lock / Unlock / Poll *)
+Theorem vfs_timetravel_view_is_timestamp_restore : forall lockp s plan ops s1,
+  gc_chain lockp 0 plan ->
+  tstep s (OSetTarget plan) = Some s1 ->
+  forallb lock_unlock_or_poll ops = true ->
+  t_target (trun s1 ops) = true /\ serves_restore_of lockp plan (t_v (trun s1 ops)).
+Proof. exact timetravel_view_is_timestamp_restore. Qed.
+Print Assumptions vfs_timetravel_view_is_timestamp_restore.
+
+Theorem vfs_reset_view_is_latest_restore : forall lockp s plan ops s1,
+  gc_chain lockp 0 plan ->
+  tstep s (OReset plan) = Some s1 ->
+  forallb lock_or_unlock ops = true ->
+  t_target (trun s1 ops) = false /\ serves_restore_of lockp plan (t_v (trun s1 ops)).
+Proof. exact reset_view_is_latest_restore. Qed.
+Print Assumptions vfs_reset_view_is_latest_restore.
